@@ -397,3 +397,98 @@ func init() {
 	register(&Scenario{Prop: "C01", Name: "c01/2callers-option-combinations", Quick: []Bound{{1, 0}}, Thorough: []Bound{{2, 0}}, Body: c01Body(2, comboModes), BudgetQ: 30})
 	register(&Scenario{Prop: "C01", Name: "c01/many-outstanding-option-combinations", Quick: []Bound{{0, 0}}, Thorough: []Bound{{1, 0}}, Body: c01Many(comboModes), MaxSteps: 200000, BudgetQ: 15, BudgetT: 200})
 }
+
+// a user Marshal that panics (a nil field dereferenced in generated code, ...): the panic unwinds through
+// Call / Go / Ping into the caller, who recovers (any middleware does).  Whatever the library does with the
+// Call object of that request, other calls - on this and on another connection, sharing the global pools -
+// are each completed exactly once, with their own outcome: none is completed before its response has
+// arrived, none gets another call's reply, also when the connection of the panicking call ends meanwhile.
+type panicCodec struct{ inner rpc.Codec }
+
+func (c panicCodec) Marshal(buf []byte, v interface{}) ([]byte, error) {
+	if p, ok := v.(*[]byte); ok && len(*p) >= 2 && (*p)[0] == 0xEB && (*p)[1] == 0xEB {
+		panic("user Marshal: nil pointer dereference")
+	}
+	return c.inner.Marshal(buf, v)
+}
+func (c panicCodec) Unmarshal(data []byte, v interface{}) error { return c.inner.Unmarshal(data, v) }
+func panicBytesCodec() rpc.Codec                                { return panicCodec{&rpc.BYTESCodec{}} }
+
+func c01PanickingMarshal(x *X) {
+	form := []int{formCall, formCallCtx, formGo}[x.Choose(3)]
+	end1 := x.Choose(3) // how the first connection ends: Close / the link dies / it stays
+	so := srvOpts{bufSize: 64, codec: panicBytesCodec}
+	f1 := newFixture(so, cliOpts{bufSize: 64})
+	f2 := newFixture(so, cliOpts{bufSize: 64})
+	ok1 := newUcall(1, 0, 20, formCall)
+	ok1.issue(f1.conn)
+	// 1. the panicking request on connection 1; the caller recovers
+	recovered := false
+	func() {
+		defer func() {
+			if r := recover(); r != nil {
+				recovered = true
+			}
+		}()
+		bad := newUcall(0xEB, 0xEB, 20, form)
+		switch form {
+		case formGo:
+			f1.conn.Go(bad.method, &bad.args, &bad.reply, make(chan *rpc.Call, 1))
+		case formCallCtx:
+			f1.conn.CallWithContext(context.Background(), bad.method, &bad.args, &bad.reply)
+		default:
+			f1.conn.Call(bad.method, &bad.args, &bad.reply)
+		}
+	}()
+	// 2. a slow call on connection 2
+	y := newUcall(0x21, fGate, 24, formCall)
+	y.spawn(f2.conn)
+	vs.Quiesce()
+	// 3. connection 1 ends
+	switch end1 {
+	case 0:
+		f1.conn.Close()
+	case 1:
+		f1.cl.Kill()
+	}
+	vs.Quiesce()
+	if y.ret {
+		x.Fail("C01/completed-without-response", "a call on a healthy connection returned (%v) while its handler was still running, after another connection - on which a request had panicked in the user's Marshal (%s, recovered %v) - ended", y.err, formNames[form], recovered)
+	}
+	// 4. another slow call, then the first one is answered
+	z := newUcall(0x22, fGate, 28, formCall)
+	z.spawn(f2.conn)
+	vs.Quiesce()
+	f2.w.open(0x21)
+	vs.Quiesce()
+	if z.ret {
+		x.Fail("C01/completed-without-response", "call Z returned (err %v, reply %.12x) while its handler was still running, when call Y was answered", z.err, z.reply)
+	}
+	f2.w.open(0x22)
+	vs.Quiesce()
+	for _, c := range []*ucall{y, z} {
+		if !c.ret {
+			x.Fail("C01/call-never-completed/panicking-marshal", "call %x never returned", c.tag)
+		} else if c.err != nil || !eqBytes(c.reply, c.want()) {
+			x.Fail("C01/wrong-outcome/panicking-marshal", "call %x on the healthy connection: err=%v reply=%.12x want %.12x", c.tag, c.err, c.reply, c.want())
+		}
+	}
+	for tag, n := range f2.w.execs {
+		if n != 1 {
+			x.Fail("C01/executed-twice", "request %x was executed %d times", tag, n)
+		}
+	}
+	after := newUcall(0x23, 0, 20, formCall)
+	after.issue(f2.conn)
+	if after.err != nil || !eqBytes(after.reply, after.want()) {
+		x.Fail("C01/wrong-outcome/panicking-marshal", "a later call: err=%v", after.err)
+	}
+	x.Outcome("form=%d end=%d recovered=%v", form, end1, recovered)
+	f1.conn.Close()
+	f2.conn.Close()
+	vs.Quiesce()
+}
+
+func init() {
+	register(&Scenario{Prop: "C01", Name: "c01/panicking-user-marshal", Quick: []Bound{{0, 0}, {1, 0}}, Thorough: []Bound{{2, 0}}, Body: c01PanickingMarshal, MaxSteps: 200000, BudgetQ: 20})
+}
